@@ -442,6 +442,9 @@ def storage_kinds():
         "LazyNode": lambda b: c.deser_legacy(b),
         "fresh-children": lambda b: Fresh(to_py(ref_deser(b)[0])),
         "CLVMTree": lambda b: CLVMTree.from_bytes(b),
+        "CLVMTree(calculate_tree_hash=False)": lambda b: CLVMTree.from_bytes(b, calculate_tree_hash=False),
+        "Program.wrap(CLVMTree no hashes)": lambda b: Program.wrap(CLVMTree.from_bytes(b, calculate_tree_hash=False)),
+        "LazyNode(deser_backrefs)": lambda b: c.deser_backrefs(b),
     }
 
 
@@ -478,7 +481,7 @@ def run_c27(res):
         for d in pool.imap_unordered(c27_worker, chunks(lines, 64)):
             res.merge(d)
     res.rule = ("every tree of TREES(4|5, {'aaaa','bbbb',''}) wrapped in every CLVMStorage implementation the wheel ships or accepts (plain python objects, Program.to, Program.from_bytes, "
-                "plain objects with hash-consed / atom-shared python identity, LazyNode from deser_legacy, a wrapper whose pair accessor builds fresh children on every access, CLVMTree): ser_2026(clvm_tree_to_lazy_node(obj)) is decoded with deser_2026 and "
+                "plain objects with hash-consed / atom-shared python identity, LazyNode from deser_legacy, a wrapper whose pair accessor builds fresh children on every access, CLVMTree with and without cached tree hashes, also wrapped in Program), plus every small-integer boundary atom alone / in a pair / twice in a list: ser_2026(clvm_tree_to_lazy_node(obj)) is decoded with deser_2026 and "
                 "walked through atom/pair; it must serialize to the source bytes. Non-trivial = (tree, storage kind) pairs that round-trip.")
 
 
